@@ -579,7 +579,67 @@ func resetRun(t *testing.T, run *ev.Run, idx, nblocks int) {
 		// indistinguishability under an alternative continuation
 		forkCheck(t, run, h, cfg, rep.Store.Inner, target, fmt.Sprintf("reset%d/to%d/fork", idx, target))
 		_ = rep.Store.RealClose()
+		// the node that was reset goes on synchronising without being restarted:
+		// the very instance that did the reset is given the blocks above the target
+		// again and must produce the recorded states
+		if id := fmt.Sprintf("reset%d/to%d/same-process", idx, target); run.Want(id) {
+			run.Case(id, true)
+			if v := resetThenContinue(t, run, h, cfg, target); v != nil {
+				run.Violation(v.sig, id, v.detail, map[string]any{"target": target, "from": nblocks})
+			}
+		}
 	}
+}
+
+// resetThenContinue syncs a node, reopens it (as `neo-go db reset` does), resets
+// it to target and then starts it and feeds it the remaining blocks in the same
+// process.
+func resetThenContinue(t *testing.T, run *ev.Run, h *vchain.History, cfg func(*config.Blockchain), target int) *outcome {
+	rep, err := vchain.OpenReplica(t, vchain.ReplicaCfg{Name: "sameproc", Cfg: cfg, Backend: "mem"})
+	if err != nil {
+		t.Fatal(err)
+	}
+	for i := range h.P.Raw {
+		if err := rep.AddRaw(h.P.Raw[i]); err != nil {
+			rep.Close()
+			return &outcome{"reset:recording-node-failed", err.Error()}
+		}
+	}
+	rep.BC.Close()
+	defer func() { _ = rep.Store.RealClose() }()
+	bc, _, _, err := vchain.OpenChainNoRun(t, false, cfg, rep.Store)
+	if err != nil {
+		return &outcome{"reset:reopen-before-reset-failed", err.Error()}
+	}
+	if err := bc.Reset(uint32(target)); err != nil {
+		return &outcome{"reset:uninterrupted-reset-failed", err.Error()}
+	}
+	go bc.Run()
+	defer bc.Close()
+	for i := target; i < len(h.P.Raw); i++ {
+		b, err := vchain.DecodeBlock(h.P.Raw[i], false)
+		if err != nil {
+			t.Fatal(err)
+		}
+		var aerr error
+		func() {
+			defer func() {
+				if x := recover(); x != nil {
+					aerr = fmt.Errorf("panic: %v", x)
+				}
+			}()
+			aerr = bc.AddBlock(b)
+		}()
+		if aerr != nil {
+			return &outcome{"reset:block-rejected-by-the-instance-that-was-reset", fmt.Sprintf("reset to %d, block %d: %v", target, i+1, aerr)}
+		}
+		o := vchain.Observe(bc, h.P.ObsOpts())
+		if n, d := obsDiff(h.P.Obs[i+1], o); n != "" {
+			return &outcome{"reset:state-differs-on-the-instance-that-was-reset:" + n, fmt.Sprintf("reset to %d, height %d: %s", target, i+1, d)}
+		}
+		run.Obs("blocks_added_to_the_instance_that_was_reset", 1)
+	}
+	return nil
 }
 
 // resetAheadRun: the node being reset knows headers above its block height
